@@ -40,6 +40,10 @@ CHECKS = {
             "Held on the observed files (corpus + fresh files of every host version) on hosts 3.8-3.13; hosts older than 3.8 cannot import this branch in the sandbox.", "7/C07"),
     "C11": ("fault_enumeration", "fault enumeration (prefixes, byte mutations, inserts/deletes, foreign magics, adversarial marshal streams) through load_module under process observers: outcome class, sys.monitoring step budget, tracemalloc peak, audit hooks, scratch-dir listing, CPU-time scaling monitor",
             "Every enumerated corruption of the seed files ends in a 7-tuple or ImportError within linear step/memory budgets with no exec/compile/import/write event; quick enumerates ~55k cases, thorough all prefixes and all byte positions of every seed <= 16 KB.", "7/C11"),
+    "C06": ("exploration", "differential runtime monitoring of load_module's header fields against real headers written by each interpreter (CPython's own _classify_pyc as oracle for 3.7+) and synthetic headers for every release magic x flag word x random field values",
+            "Every observed header decodes to exactly the fields its format stores, and the code object is the one right after the header; flag words CPython itself rejects are not judged.", "7/C06"),
+    "C10": ("exploration", "differential runtime monitoring of xdis's unmarshaller on hand-synthesised marshal streams (every encoding form, FLAG_REF/back-reference patterns) against the reference interpreter's own marshal.loads",
+            "Held on the accepted synthesised streams of each reference version (2.7, 3.6-3.13); the synthesiser is untrusted and streams a reference rejects are discarded; text-format NaN is not generated for Python 2.", "7/C10"),
 }
 
 PENDING = {}
